@@ -51,7 +51,8 @@ ParserEffective == IF roleSel \in {"primary", "replica", "any"} THEN FALSE
 PrimaryReadsEffective == IF prSel = "default" THEN PrimaryReads ELSE prSel = "on"
 
 \* ---- C13: the command language changes the state like this
-SetServerRole(w) == /\ w \in RoleWords /\ roleSel' = w /\ UNCHANGED <<cfg, prSel, shardSel, lastClass>>
+\* an explicit SET SERVER ROLE replaces whatever inference did to the session's role since the last one
+SetServerRole(w) == /\ w \in RoleWords /\ roleSel' = w /\ lastClass' = "none" /\ UNCHANGED <<cfg, prSel, shardSel>>
 SetPrimaryReads(w) == /\ w \in PrWords /\ prSel' = w /\ UNCHANGED <<cfg, roleSel, shardSel, lastClass>>
 \* SET SHARD TO k: refused when out of range, state unchanged
 SetShard(k) == /\ shardSel' = IF k >= 0 /\ k < NShards THEN k ELSE shardSel
@@ -64,7 +65,11 @@ ShowServerRoleValue ==
   CASE roleSel \in {"primary", "replica"} -> roleSel
     [] roleSel = "any" -> "any"
     [] roleSel = "auto" -> IF lastClass = "none" THEN "auto" ELSE "dontcare"  \* inference may have run since
-    [] OTHER -> "dontcare"     \* default: depends on what inference last did; not specified
+    \* default (also: no SET at all): the pool's default role; without one, "auto" when the pool parses queries, else "any";
+    \* once statements have been routed inference may have changed it - not specified
+    [] OTHER -> IF lastClass # "none" THEN "dontcare"
+                ELSE IF cfg.default_role \in {"primary", "replica"} THEN cfg.default_role
+                ELSE IF ParserOn THEN "auto" ELSE "any"
 ShowPrimaryReadsValue == IF PrimaryReadsEffective THEN "on" ELSE "off"
 ShowShardValue == IF shardSel = -1 THEN "unset" ELSE IF shardSel = -2 THEN "dontcare" ELSE ToString(shardSel)
 
